@@ -24,7 +24,8 @@ func c02Cyclelist(ctxk Keeper, set func(qid, qd []byte), n int) [][]byte {
 // does not panic and re-establishes O1; the sequencer moves only when the current query has no open window, and then
 // to (i+1) mod n.
 func VerifC02_rotate() {
-	ctx, k := vOracleKeeper(&vRepStub{}, newVBank(false), c07Registry{window: 10})
+	window := c07Window()
+	ctx, k := vOracleKeeper(&vRepStub{}, newVBank(false), c07Registry{window: window})
 	n := 1 + ndLen("n", 2)
 	c02Cyclelist(k, func(qid, qd []byte) {
 		if err := k.Cyclelist.Set(ctx, qid, qd); err != nil {
@@ -111,7 +112,7 @@ func VerifC02_rotate() {
 				ndAssert(nm2.CycleList && nm2.Expiration > uint64(h), "tipped-round-is-in-the-cycle-and-open")
 			}
 			if !nextHas || (ntip.IsZero() && nexp < uint64(h)) {
-				ndAssert(nm2.CycleList && nm2.Expiration == uint64(h)+10, "fresh-round-opens-for-the-window")
+				ndAssert(nm2.CycleList && nm2.Expiration == uint64(h)+window, "fresh-round-opens-for-the-window")
 			}
 		}
 	}
